@@ -248,6 +248,9 @@ def temp_profile(spec, N):
         arr[N // 2] = 2200.0
     elif name == 'steps':            # adjacent layers pairwise at exactly the same temperature
         arr = np.repeat(np.linspace(1700.0, 500.0, (N + 1) // 2), 2)[:N]
+    elif name == 'aba':              # the same temperature below and above a warmer middle (equal values NOT adjacent)
+        arr = np.full(N, 1000.0)
+        arr[N // 2] = 1500.0
     elif name == 'outside':          # partly outside the 200..2500 K table range
         arr = np.linspace(3000.0, 150.0, N)
     else:
